@@ -155,7 +155,14 @@ def run(ctx):
     # __init__ does not pin a private type for attached symbols: `self.type = given or self.type` goes through the setter
     init = T.function('__init__')
     src = ast.unparse(init.node)
-    ok = X.has(src, "self.type = kwargs.pop('type', None) or self.type") and src.index('self.scope =') < src.index('self.type =')
+    stores = {a: [n.lineno for n in ast.walk(init.node) if isinstance(n, ast.Attribute) and isinstance(n.ctx, ast.Store)
+                  and ast.unparse(n) == f'self.{a}'] for a in ('scope', 'type', '_type')}
+    tval = [ast.unparse(a_.value) for a_ in ast.walk(init.node) if isinstance(a_, ast.Assign) and any(ast.unparse(t) == 'self.type' for t in a_.targets)]
+    # the given type goes through the property setter (self.type = ...), after the scope is known, and a private
+    # self._type is at most reset to None before that
+    priv = [ast.unparse(a_.value) for a_ in ast.walk(init.node) if isinstance(a_, ast.Assign) and any(ast.unparse(t) == 'self._type' for t in a_.targets)]
+    ok = bool(stores['scope']) and bool(stores['type']) and min(stores['scope']) < min(stores['type']) and \
+        all("'type'" in v for v in tval) and all(v == 'None' for v in priv)
     (ctx.judge('R2', '__init__ sets scope before type') if ok else
      ctx.violation('R2', 'TypedSymbol.__init__', init.where, 'constructor assigns the type before the scope / bypasses the setter'))
     # ---- R3
